@@ -17,7 +17,7 @@ def tla_set(xs):
 
 
 def cfg_for(path, dev="none", sparsefrag=False, nf=2, mb=1, ids=None, backlogs=(3, 4), flagsets=None, tails=(1, 3),
-            perfect=False, emit=False, invariants=("Safety", "Deterministic"), chain=None):
+            perfect=False, emit=False, invariants=("Safety", "Deterministic"), chain=None, failids=(), finish_checks=True):
     ids = ids or DEFAULT_IDS
     flagsets = flagsets if flagsets is not None else [[], ["IGNORE_SPARSE"]]
     idset = tla_set('"%s"' % i for i in ids)
@@ -25,8 +25,10 @@ def cfg_for(path, dev="none", sparsefrag=False, nf=2, mb=1, ids=None, backlogs=(
     cs = "[x \\in %s |-> CASE %s [] OTHER -> 4]" % (idset, " [] ".join('x = "%s" -> %d' % (k, v) for k, v in CSMAP.items()))
     write_cfg(path, spec="Spec",
               constants={"B": 4, "MaxFiles": nf, "MaxBlocks": mb, "SparseCheckOnFragBlock": sparsefrag, "Dev": '"%s"' % dev,
-                         "Backlogs": set(backlogs), "Zero": '"z"', "TailSizes": set(tails), "PerfectHash": perfect, "Emit": emit},
+                         "Backlogs": set(backlogs), "Zero": '"z"', "TailSizes": set(tails), "PerfectHash": perfect, "Emit": emit,
+                         "FinishChecksStatus": finish_checks},
               defs={"ContentIds": idset, "H": "[x \\in %s |-> 0]" % idset, "CS": cs, "FlagSets": fs,
+                    "FailIds": tla_set('"%s"' % c for c in failids),
                     "ChainSeq": "<<%s>>" % ", ".join('"%s"' % c for c in (chain or []))},
               invariants=list(invariants), deadlock=False)
 
@@ -78,9 +80,9 @@ def expected_real(res):
     return {"ino": ino, "ftbl": ftbl, "dsize": len(disk), "dcrc": zlib.crc32(bytes(disk))}
 
 
-def input_file(path, inp, Q, W):
+def input_file(path, inp, Q, W, failids=()):
     with open(path, "w") as f:
-        f.write("Q %d W %d CS %s\n" % (Q, W, " ".join("%s=%d" % kv for kv in CSMAP.items() if kv[0] != "z")))
+        f.write("Q %d W %d CS %s\n" % (Q, W, " ".join(["%s=%d" % kv for kv in CSMAP.items() if kv[0] != "z"] + ["%s=-1" % c for c in failids])))
         for spec in inp:
             fl = sum(FLAGBITS[x] for x in spec["flags"])
             atoms = [(c, 4) for c in spec["blocks"]] + [(t["c"], t["n"]) for t in spec["tail"]]
